@@ -165,6 +165,18 @@ func fnGetEx(ctx *cmdContext, args map[string]any) (output respValue, err error)
 		return
 	}
 
+	// without an expiration option GETEX is a plain GET: the deadline stays as it is
+	hasOption := false
+	for name := range args {
+		if strings.HasPrefix(name, "expiration.") {
+			hasOption = true
+			break
+		}
+	}
+	if !hasOption {
+		return fnGet(ctx, args)
+	}
+
 	str, valueExists := ctx.dsc.getKeySetExpiration(keyName, expiration)
 	if valueExists == VALUE_WRONG_TYPE {
 		output.data = wrongTypeError
